@@ -1,0 +1,97 @@
+//go:build verif
+
+// Contracts for the deductive verifier in /verif (dsvc).  This file is compiled only with -tags verif.
+// It contains (a) spec intrinsics and pure spec functions (ordinary Go, so the replay harness can run them)
+// and (b) the contracts themselves as structured comments inside /*@ ... @*/ blocks.  It adds no code to
+// the normal build.
+
+package dicescript
+
+import (
+	"math"
+
+	"golang.org/x/exp/rand"
+)
+
+var _ = math.MaxInt64
+
+// ---- spec intrinsics (interpreted by dsvc; the bodies are for the replay harness only) ----
+
+func old[T any](x T) T { return x }
+
+func implies(a, b bool) bool { return !a || b }
+
+func forall(lo, hi int, p func(k int) bool) bool {
+	for k := lo; k < hi; k++ {
+		if !p(k) {
+			return false
+		}
+	}
+	return true
+}
+
+func exists(lo, hi int, p func(k int) bool) bool {
+	for k := lo; k < hi; k++ {
+		if p(k) {
+			return true
+		}
+	}
+	return false
+}
+
+// rngPos is the number of draws made so far from src; rngDraw(src, k) is the k-th value of its stream.
+func rngPos(src *rand.PCGSource) int            { panic("spec only") }
+func rngDraw(src *rand.PCGSource, k int) uint64 { panic("spec only") }
+
+// psum(s, n) = s[0] + ... + s[n-1]
+func psum(s []IntType, n int) IntType {
+	var t IntType
+	for i := 0; i < n && i < len(s); i++ {
+		t += s[i]
+	}
+	return t
+}
+
+// ---- pure spec functions ----
+
+func specClamp(x IntType, lo, hi *IntType) IntType {
+	if hi != nil && x > *hi {
+		x = *hi
+	}
+	if lo != nil && x < *lo {
+		x = *lo
+	}
+	return x
+}
+
+/*@
+globalinv [C04 C05 C06] randSource : randSource != nil
+
+func getSource
+  props C05 C06
+  ensures result != nil
+
+func _roll64
+  props C05 C04
+  requires src != nil
+  requires dicePoints >= 1
+  ensures [C04 C05] 1 <= result && result <= dicePoints
+  ensures [C05] dicePoints <= math.MaxInt64-1 ==> rngPos(src) > old(rngPos(src))
+  ensures [C05] dicePoints <= math.MaxInt64-1 ==> result == int64(rngDraw(src, rngPos(src)-1) % uint64(dicePoints)) + 1
+  ensures [C05] dicePoints <= math.MaxInt64-1 && uint64(dicePoints)&(uint64(dicePoints)-1) != 0 ==> rngDraw(src, rngPos(src)-1) < math.MaxUint64 - math.MaxUint64%uint64(dicePoints)
+  ensures [C05] dicePoints <= math.MaxInt64-1 && uint64(dicePoints)&(uint64(dicePoints)-1) != 0 ==> forall j in [old(rngPos(src)), rngPos(src)-1): rngDraw(src, j) >= math.MaxUint64 - math.MaxUint64%uint64(dicePoints)
+  ensures [C05] dicePoints <= math.MaxInt64-1 && uint64(dicePoints)&(uint64(dicePoints)-1) == 0 ==> rngPos(src) == old(rngPos(src)) + 1
+  assigns rng.pos
+  loop 1
+    invariant v == rngDraw(src, rngPos(src)-1)
+    invariant rngPos(src) > old(rngPos(src))
+    invariant forall j in [old(rngPos(src)), rngPos(src)-1): rngDraw(src, j) >= ceiling
+
+func Roll
+  props C04 C05 C15
+  requires dicePoints >= 0
+  ensures [C04 C15] dicePoints == 0 ==> result == 0
+  ensures [C15] dicePoints > 0 && mod == -1 ==> result == 1
+  ensures [C15] dicePoints > 0 && mod == 1 ==> result == dicePoints
+  ensures [C04 C05] dicePoints > 0 && mod != 1 && mod != -1 ==> 1 <= result && result <= dicePoints
+@*/
